@@ -1526,7 +1526,6 @@ def explore(body, cut=None, mark_edges=None, start_env=None, start_blocks=None, 
                 e[tidx[dl]] = None
             if dl in pidx:
                 e[pidx[dl]] = newp
-        const_flag = False
         if t["k"] == "switch":
             op = t["discr"]
             if op["k"] in ("copy", "move") and not op["pl"]["p"]:
@@ -1534,10 +1533,6 @@ def explore(body, cut=None, mark_edges=None, start_env=None, start_blocks=None, 
                 if dl in idx:
                     known = e[idx[dl]]
                     known = None if known is None else int(known)
-                    # the flag holds a literal on this path (`let wait = match mode { Verify => false, _ => f() }`): the branch is taken
-                    # because of the literal, not because of what a guard predicate says about the flag's OTHER origins — a cut
-                    # edge of this switch does not apply here
-                    const_flag = known is not None
                 elif dl in didx:
                     known = e[didx[dl]]
         plearn = None
